@@ -7,7 +7,7 @@
        which does not depend on the generator model at all. *)
 From Coq Require Import String ZArith List Bool Arith.
 From TLX Require Import Model.Bits Model.CLang Model.Netlist Model.ConvNet Model.Wrapper Model.Host Model.Validate Model.GenNet.
-From TLX Require Import Proofs.CLangFacts Proofs.ValidateFacts Proofs.WrapperFacts Proofs.HostFacts Proofs.C02Facts Proofs.C04Facts Proofs.GenNetFacts.
+From TLX Require Import Proofs.CLangFacts Proofs.ValidateFacts Proofs.WrapperFacts Proofs.HostFacts Proofs.C02Facts Proofs.C04Facts Proofs.GenNetFacts Proofs.PoolFacts.
 From TLX Require Import Gen.GateCode.
 Import ListNotations.
 Local Open Scope Z_scope.
@@ -43,6 +43,14 @@ Theorem C02_logic_net : forall W m inp,
   exists out, execZ W (gen_net m) inp = Some out /\ length out = net_out m /\
     forall j, 0 <= j < W -> map (lane j) out = eval_model m (map (lane j) inp).
 Proof. exact gen_net_correct_words. Qed.
+
+(* the pooling part of well-formedness follows from the arithmetic PyTorch itself demands of max pooling (padding at most half
+   the kernel, hence < kernel), positive sizes and stride, kernel not larger than the padded image *)
+Theorem C02_pool_wf : forall ps,
+  Forall (fun n => 0 < n)%nat (pl_dims ps) -> (0 < pl_stride ps)%nat -> (pl_pad ps < pl_kernel ps)%nat ->
+  Forall (fun n => pl_kernel ps <= n + 2 * pl_pad ps)%nat (pl_dims ps) ->
+  wf_pool ps = true.
+Proof. exact wf_pool_arith. Qed.
 
 (* eval_model is the layer-list reference model used by C11/C12 *)
 Theorem C02_reference : forall m x, eval_net (net_layers m) x = eval_model m x.
@@ -83,6 +91,7 @@ Eval compute in "PA:C02_validator_sound"%string. Print Assumptions C02_validator
 Eval compute in "PA:C02_gate_templates"%string. Print Assumptions C02_gate_templates.
 Eval compute in "PA:C02_counts"%string. Print Assumptions C02_counts.
 Eval compute in "PA:C02_logic_net"%string. Print Assumptions C02_logic_net.
+Eval compute in "PA:C02_pool_wf"%string. Print Assumptions C02_pool_wf.
 Eval compute in "PA:C02_reference"%string. Print Assumptions C02_reference.
 Eval compute in "PA:C02_net_counts"%string. Print Assumptions C02_net_counts.
 Eval compute in "PA:C02_net_direct"%string. Print Assumptions C02_net_direct.
